@@ -2,6 +2,7 @@ package harness
 
 import (
 	"fmt"
+	"github.com/google/uuid"
 	"k8s.io/apimachinery/pkg/api/resource"
 	metav1 "k8s.io/apimachinery/pkg/apis/meta/v1"
 	"k8s.io/apimachinery/pkg/types"
@@ -68,7 +69,7 @@ func drawC08(t *rapid.T) *c08Scenario {
 	d.Steps = []dStep{{Kind: "disrupt"}}
 	for i := 1; i < n; i++ {
 		l := fmt.Sprintf("c08step%d", i)
-		kind := rapid.SampledFrom([]string{"queue", "init", "disrupt", "initOne", "queue", "lose", "advance", "finish", "restart", "loseLag", "candidateGone"}).Draw(t, l+"_kind")
+		kind := rapid.SampledFrom([]string{"queue", "init", "disrupt", "initOne", "queue", "lose", "advance", "finish", "restart", "loseLag", "candidateGone", "overlapStart"}).Draw(t, l+"_kind")
 		st := dStep{Kind: kind}
 		if kind == "advance" {
 			st.Sec = rapid.SampledFrom([]int{1, 30, 300, 601, 3700}).Draw(t, l+"_sec")
@@ -145,6 +146,7 @@ type c08Result struct {
 	unsynced                                                      bool
 	rolledBackByQueue                                             int
 	multiCandidateReplace                                         int
+	overlapStarts                                                 int
 }
 
 func c08Err(kind int, c *sim.Call) error {
@@ -366,6 +368,32 @@ func runC08(s *c08Scenario, faultIdx, kind int) *c08Result {
 			r.loseReplacementNoSync()
 		case "finish":
 			r.finishDeleting()
+		case "overlapStart":
+			// a command that shares one node with a command in flight and brings one fresh node (what a caller racing
+			// with the queue would hand over): StartCommand has to refuse it as a whole
+			var inflight, fresh *disruption.Candidate
+			var method disruption.Method
+			for _, qc := range r.queue.GetCommands() {
+				if len(qc.Candidates) > 0 && inflight == nil {
+					inflight, method = qc.Candidates[0], qc.Method
+				}
+			}
+			r.candObjs.Range(func(k, v any) bool {
+				cn := v.(*disruption.Candidate)
+				if fresh == nil && !r.queue.HasAny(k.(string)) && cn.NodeClaim != nil {
+					if nc := w.GetNodeClaim(cn.NodeClaim.Name); nc != nil && nc.DeletionTimestamp.IsZero() {
+						fresh = cn
+					}
+				}
+				return true
+			})
+			if inflight != nil && fresh != nil {
+				res.overlapStarts++
+				cmd := &disruption.Command{Method: method, Candidates: []*disruption.Candidate{fresh, inflight}, CreationTimestamp: w.Clock.Now(), ID: uuid.New()}
+				if err := r.queue.StartCommand(w.Ctx, cmd); err == nil {
+					violate("two-concurrent-actions:overlapping-command-admitted", "step %d: StartCommand admitted a command over %s and %s although %s is the candidate of a command in flight", i, fresh.Name(), inflight.Name(), inflight.Name())
+				}
+			}
 		case "restart":
 			stickyKey = ""
 			r.restart()
@@ -530,6 +558,7 @@ func execC08(s *c08Scenario, c *ev.Ctx) {
 	c.Add("queue_deletes", base.deletes)
 	c.ClassIf(base.withReplacement > 0, "command_with_replacement")
 	c.ClassIf(base.multiCandidateReplace > 0, "multi_candidate_command_with_replacement")
+	c.ClassIf(base.overlapStarts > 0, "overlapping_command_offered_to_start")
 	c.ClassIf(base.deletes > 0, "candidates_deleted")
 	c.ClassIf(base.unsuccessful > 0, "action_ended_without_removing_candidate")
 	c.ClassIf(base.failedStarts > 0, "start_failed")
@@ -543,7 +572,7 @@ func execC08(s *c08Scenario, c *ev.Ctx) {
 
 var propC08 = ev.Prop[c08Scenario]{
 	ID: "C08", Test: "TestC08", Level: "fault_enumeration",
-	Rule: "rapid draws a disruption world biased to drift (dynamic and static pools) and replace-consolidation, and a history of 2-9 steps from {disruption reconcile, queue reconcile, all / one replacement becomes Initialized through the real lifecycle controller, a candidate of a command in flight vanishes, a replacement vanishes (with or without the informers having delivered the deletion), clock +1s..+61m (past the command timeout), nodes finish terminating, controller restart (new cluster state, queue, provisioner, methods)}; a fault-free run counts the faultable calls (every API write of the disruption controller and queue, plus every read made between a method returning commands and the end of StartCommand and inside queue reconciles), then EACH index is failed once (quick: one drawn kind of 500 / conflict / persistent-500-until-the-controller-call-returns / NotFound, thorough: all four); " +
+	Rule: "rapid draws a disruption world biased to drift (dynamic and static pools) and replace-consolidation, and a history of 2-9 steps from {disruption reconcile, queue reconcile, all / one replacement becomes Initialized through the real lifecycle controller, a candidate of a command in flight vanishes, a replacement vanishes (with or without the informers having delivered the deletion), clock +1s..+61m (past the command timeout), nodes finish terminating, controller restart (new cluster state, queue, provisioner, methods), StartCommand is handed a command that shares one node with a command in flight and adds a fresh one (must be refused)}; a fault-free run counts the faultable calls (every API write of the disruption controller and queue, plus every read made between a method returning commands and the end of StartCommand and inside queue reconciles), then EACH index is failed once (quick: one drawn kind of 500 / conflict / persistent-500-until-the-controller-call-returns / NotFound, thorough: all four); " +
 		"oracle: monitor at the instant of every NodeClaim delete issued by the queue - the claim is a candidate of a computed command, every replacement of that command exists and is Initialized in the API, and the command is not past its timeout; after every step no provider id belongs to two commands and no method selects a node of a command in flight; after the history and ONE fault-free disruption reconcile, every candidate of a command that is no longer in the queue and that was not deleted carries neither the disruption taint nor the DisruptionReason condition and is not marked for deletion in the cluster state; " +
 		"non-trivial = the scenario started a command with a replacement and the fault landed inside the protocol (StartCommand or a queue reconcile), or such a command ended without removing its candidate; evaluations are scenarios, executions (scenario x fault) are in the counters",
 	Assumptions: []string{"client-go's retry.DefaultBackoff keeps its four attempts but does not sleep real time", "calls of one command's candidates run in parallel goroutines: the fault index is an index into whatever order they took"},
